@@ -47,6 +47,12 @@ func propC08(t *rapid.T) {
 	} else {
 		raw, _ = spec.EncodePortable(bs.Chunks, spec.EncOpts{ForceRunCookie: rapid.Bool().Draw(t, "forceRunCookie")})
 	}
+	zcMachine(t, "C08", entry, raw, bs)
+}
+
+// zcMachine loads raw (a valid portable or frozen serialization of bs) zero-copy from a guarded
+// mapping and runs the operation machine over the view and everything derived from it.
+func zcMachine(t *rapid.T, prop string, entry int, raw []byte, bs gen.BitmapSpec) {
 	pristine := append([]byte(nil), raw...)
 	g := inst.NewGuard(raw, rapid.Bool().Draw(t, "atEnd"))
 	defer g.Free()
@@ -392,6 +398,14 @@ func propC08(t *rapid.T) {
 		},
 	})
 	check()
+	if prop != "C08" {
+		// run as a part of another property's case: that property does its own accounting
+		inst.Count(prop, "zero-copy-machine-runs")
+		if mutatedAliased {
+			inst.Count(prop, "zero-copy-machine:histories-mutating-aliased-chunk")
+		}
+		return
+	}
 	inst.Count("C08", "entry:"+c10Entries[entry])
 	if detached {
 		inst.Count("C08", "histories-with-detach")
